@@ -12,8 +12,27 @@ from absint import Interp, Order, Cell, MapObj, Unmodelled, mk_option, UNIT
 from facts import strip_generics, last_seg, ty_head
 
 
+STR_OTHER = ('replace', 'replacen', 'to_lowercase', 'to_uppercase', 'to_ascii_lowercase', 'to_ascii_uppercase', 'trim', 'trim_start', 'trim_end', 'trim_matches',
+             'trim_start_matches', 'trim_end_matches', 'repeat', 'escape_default', 'escape_debug')
+
+
+def string_op(interp, name, args, t, body):
+    """a text transformation of a name: in general ANOTHER text (a generic service's name holds `<`, upper-case letters, ...), so the
+    transformed name is a different symbol; the same transformation of the same name gives the same symbol"""
+    seg = last_seg(name)
+    if seg in STR_OTHER and args and name.startswith(('alloc::str::<impl str>::', 'core::str::<impl str>::', 'alloc::string::String::')):
+        a = interp.deref_all(args[0])
+        if a is not None and a[0] == 'key':
+            v = ('key', '%s~%s' % (a[1], seg))
+            return ('ref', Cell(v)) if body.local_ty(t['dest']['l']).startswith('&') else v
+    return None
+
+
 def hook(interp, name, args, t, body):
     seg = last_seg(name)
+    r_ = string_op(interp, name, args, t, body)
+    if r_ is not None:
+        return r_
     if name.startswith('lock_api::') or name.startswith('parking_lot::') or name.startswith('std::sync::'):
         if seg in ('lock', 'write', 'read', 'upgradable_read', 'try_lock', 'try_write', 'try_read'):
             inner = interp.deref_all(args[0])
@@ -118,6 +137,12 @@ def check_registry(ctx, facts, rule):
             st = state()
             r = run(facts, roles.lookup, [('ref', Cell(st)), ('ref', Cell(('key', 'u')))])
             out[(pre, 'lookup')] = (r, roles.read(st))
+        # this summary builds registry states directly and so assumes names are stored as given; a registry that stores TRANSFORMED names
+        # (sanitised, lower-cased, ...) is outside it — the black box (check_server), which goes through the server's own API, decides it
+        for (pre, op), res in out.items():
+            sv_ = res[1][0] if op == 'lookup' else res[0]
+            if any('~' in str(k) for k in sv_):
+                raise Unmodelled('the registry stores transformed service names')
     except (Unmodelled, absint.NeedChoice, absint.PanicPath, IndexError, TypeError, KeyError, AttributeError) as e:
         return _fallback(ctx, rule, e)
     site_ = '%s:%s' % (roles.add.file, roles.add.line)
@@ -197,6 +222,9 @@ def key_hook(interp, name, args, t, body):
         return ('key', 'H(%s)' % a[1])
     if name in ('alloc::sync::Arc::new', 'alloc::boxed::Box::new') and args:
         return args[0]
+    r_ = string_op(interp, name, args, t, body)
+    if r_ is not None:
+        return r_
     if name in ('alloc::string::ToString::to_string', 'alloc::borrow::ToOwned::to_owned', 'core::convert::AsRef::as_ref', 'alloc::string::String::as_str',
                 'core::convert::From::from', 'core::convert::Into::into', 'alloc::str::<impl str>::to_string', 'alloc::str::<impl str>::to_owned',
                 'core::ops::deref::Deref::deref', 'core::borrow::Borrow::borrow') and args:
